@@ -58,6 +58,22 @@ Stmts7 == Stmts5 \o << [q |-> S6, swapped |-> FALSE], [q |-> S7, swapped |-> FAL
 Params7 == Params5 \o << << PSeq(<<Null, B(FALSE), I(0)>>), PSeq(<<B(TRUE), Null, I(1)>>), PSeq(<<B(FALSE), Null>>) >>,
                          << PMap(<< <<"lo", I(1)>>, <<"p", B(FALSE)>> >>), PMap(<< <<"p", B(TRUE)>>, <<"lo", I(0)>> >>),
                             PMap(<< <<"p", Null>>, <<"lo", I(0)>>, <<"q", I(1)>> >>) >> >>
+\* S8  SELECT %s AS v, x FROM #t WHERE x > %s                  the parameter itself is an output: its literal KIND shows in
+\*     the value and in the announced type.  1 and TRUE, 0 and FALSE are different BQL values (the literals `1` and `TRUE`
+\*     denote different things) although the host language compares and hashes them as equal
+S8 == Select(<<Tg(Ph(1, ""), "v"), Tg(Col("x"), "")>>, Tab("t"), Bin("gt", Col("x"), Ph(2, "")), <<>>, FALSE, -1)
+\* S9  SELECT x, %(p)s AS v, %(p)s AS w FROM (SELECT x FROM #t WHERE x > %(lo)s)      the same with a repeated name and a
+\*     placeholder inside a FROM-subquery
+S9 == Select(<<Tg(Col("x"), ""), Tg(Ph(1, "p"), "v"), Tg(Ph(2, "p"), "w")>>,
+             Sub(Select(<<Tg(Col("x"), "")>>, Tab("t"), Bin("gt", Col("x"), Ph(3, "lo")), <<>>, FALSE, -1)), None, <<>>, FALSE, -1)
+StmtsK == << [q |-> S8, swapped |-> FALSE], [q |-> S9, swapped |-> FALSE] >>
+ParamsK == << << PSeq(<<I(1), I(0)>>), PSeq(<<B(TRUE), I(0)>>), PSeq(<<B(FALSE), I(0)>>), PSeq(<<I(0), I(0)>>) >>,
+              << PMap(<< <<"p", I(0)>>, <<"lo", I(1)>> >>), PMap(<< <<"lo", I(1)>>, <<"p", B(FALSE)>> >>),
+                 PMap(<< <<"p", B(TRUE)>>, <<"lo", I(1)>>, <<"q", I(0)>> >>), PMap(<< <<"p", I(1)>>, <<"lo", I(1)>> >>) >> >>
+Stmts9 == Stmts7 \o StmtsK
+Params9 == Params7 \o << SubSeq(ParamsK[1], 1, 3), SubSeq(ParamsK[2], 1, 3) >>
+CacheExact == "exact"
+CacheHost == "host"
 \* the smallest history on which the mechanism as shipped fails: one statement with two positional placeholders
 Stmts1 == << [q |-> S1, swapped |-> FALSE] >>
 Params1 == SubSeq(Params4, 1, 1)
@@ -66,7 +82,9 @@ Pairs9 == {<<i, j>> : i \in 1..3, j \in 1..3}
 Pairs2 == {<<1, 2>>, <<3, 1>>}
 Pairs1 == {<<1, 2>>}
 Pairs0 == {}
+Pairs12 == {<<1, 2>>, <<2, 1>>}
 Idx2 == {2}
+Idx1234 == {1, 2, 3, 4}
 Idx123 == {1, 2, 3}
 
 (* ---- folding: well-typed expressions of depth <= 2 over constants and three columns (int, int, str).
